@@ -143,6 +143,34 @@ pub fn check_c11<P: TP, V: Val>(side: &mut Side<P, V>, env: &mut Env, queries: &
                 if interesting && nt.len() < 48 {
                     nt.push(fingerprint(&(mfp, qk, 11u8)));
                 }
+                // nested addressing: view_at / view_mut_at called on the view itself, for queries below it
+                let below: Vec<Raw> = queries.iter().copied().filter(|r| r.key() != qk && covers(qk, r.key())).collect();
+                let stride = (below.len() / 6).max(1);
+                for q2 in below.iter().step_by(stride).take(8) {
+                    let k2 = q2.key();
+                    let p2: P = mk(*q2);
+                    let under2 = entries_under(&side.model, k2);
+                    env.cur_op = "view.view_at";
+                    match (&side.map).view_at(p.clone()).and_then(|o| o.view_at(p2.clone())) {
+                        None => ensure!(under2.is_empty(), "C11", "C11:nested.view_at:none-but-entries", "state {step}: view_at({:?}).view_at({:?}) is None although {:?} are covered by it", qk, k2, under2),
+                        Some(nv) => {
+                            ensure!(key_of(nv.prefix()) == k2, "C11", "C11:nested.view_at:prefix", "state {step}: view_at({:?}).view_at({:?}) has prefix {:?}", qk, k2, key_of(nv.prefix()));
+                            check_view_here(&nv, &side.model, env, "nested view_at")?;
+                        }
+                    }
+                    env.cur_op = "view_mut.view_mut_at";
+                    match side.map.view_mut_at(p.clone()).and_then(|m| m.view_mut_at(p2)) {
+                        None => ensure!(under2.is_empty(), "C11", "C11:nested.view_mut_at:none-but-entries", "state {step}: view_mut_at({:?}).view_mut_at({:?}) is None although {:?} are covered by it", qk, k2, under2),
+                        Some(nm) => {
+                            ensure!(key_of(nm.prefix()) == k2, "C11", "C11:nested.view_mut_at:prefix", "state {step}: view_mut_at({:?}).view_mut_at({:?}) has prefix {:?}", qk, k2, key_of(nm.prefix()));
+                            let mval = nm.value().map(|x| x.id());
+                            ensure!(mval == side.model.get(k2).map(|s| s.value), "C11", "C11:nested.view_mut_at:value", "state {step}: view_mut_at({:?}).view_mut_at({:?}).value() = {:?}", qk, k2, mval);
+                            let got: KV = nm.into_iter().take(lim).map(|(p, x)| (key_of(p), x.id())).collect();
+                            ensure!(got == under2, "C11", "C11:nested.view_mut_at:entries", "state {step}: view_mut_at({:?}).view_mut_at({:?}) addresses {:?}, entries under it {:?}", qk, k2, got, under2);
+                        }
+                    }
+                    env.ev("c11_nested_view_at");
+                }
                 // mutable twin: every path again through view_mut_at + left/right
                 for (vk, path) in &views {
                     env.cur_op = "view_mut_at";
